@@ -40,6 +40,8 @@ def evaluate(fam, cases, payload_extra=None):
             out.append(r)
             continue
         mo, so, hyp = fam.split(model[n])
+        if hasattr(fam, 'within_hypotheses'):
+            hyp = hyp and fam.within_hypotheses(c)
         io = impl.get(n, 'HARNESS-NO-OUTPUT')
         r.update(impl=io, model=mo, spec=so, hyp=hyp)
         tie_i, prop_i = fam.canon(c, io)
@@ -50,6 +52,9 @@ def evaluate(fam, cases, payload_extra=None):
             r['verdict'] = 'ok'
         elif not prop_ok:
             kf = fam.known(c, io, mo, so) if tie_ok or getattr(fam, 'known_without_tie', False) else None
+            # a signature only counts when known_findings.json lists that finding as open for this property
+            if kf not in {k['id'] for k in known_findings(fam.pid)}:
+                kf = None
             r['verdict'] = ('known:' + kf) if kf else 'violation'
         else:
             r['verdict'] = 'tie-broken'
